@@ -2,6 +2,7 @@
 import itertools
 
 from core import fseq, fseqs, fbool, fcells, pseq, pseqs, guarded
+import past
 import used
 
 PROP = "C10"
@@ -10,7 +11,8 @@ RULE = ("exhaustive: every permutation p with |p|<=N for every unary op; every a
         "sums/compose; every component list (None / all perms of length <=2, some of length 3) for inflate with |p|<=3; "
         "random: structured permutations (sums, skew sums, inflations of simples, planted intervals, monotone runs) "
         "up to length 12; non-trivial = the permutation argument has length >= 2 and the call does not raise; "
-        "distinct = distinct op lines")
+        "distinct = distinct op lines"
+        ' Hardening pass 2: stream `large` (lengths 21-40, 64-70, ~200, ~401, 1000; operations dropped per scale where a side needs > 0.2 s); operands of heavy lines are objects with a past (past.mkperm_u with the C10 operations as use); returned containers are destroyed and argument lists changed before the second evaluation.')
 ASSUMPTIONS = [
     "model/implementation agreement outside the enumerated and sampled inputs is assumed",
     "operations are modelled on permutations (IsPerm) and the argument kinds listed in the protocol; behaviour on "
@@ -72,6 +74,15 @@ _HEAVY = [False]
 def _warm_first(p):
     """use a permutation before the call under test: generic use (hash, comparison, abandoned occurrence listings)
     and the neighbouring C10 operations on the SAME object (results discarded)"""
+    if len(p) > 120:
+        # LONG permutations (`large` stream): the quadratic neighbours below would cost 0.2 s (400) to seconds (1000)
+        # per line; the linear ones only
+        used.warm_perm(p, 0)
+        if used.is_perm(p):
+            for f in (p.sum_decomposition, p.is_skew_decomposable, p.inverse, p.monotone_quotient,
+                      lambda: p.shift_right(1), lambda: p.insert(0, 0), lambda: p.remove(0), lambda: p * p):
+                used.quiet(f)
+        return
     used.warm_perm(p, 1)
     if not used.is_perm(p):
         return
@@ -94,18 +105,45 @@ def _warm_first(p):
     used.sip(lambda: iter(p.children()))
 
 
+def _c10_use(p):
+    """the C10 operations themselves, on an object a derived object is about to be made from (past.mkperm_u)"""
+    q = used.quiet
+    q(p.sum_decomposition)
+    q(p.skew_decomposition)
+    q(p.monotone_quotient)
+    q(lambda: list(p.monotone_block_decomposition(True)))
+    q(lambda: p.contract_inc_bonds())
+    if len(p) <= 40:
+        q(p.block_decomposition)
+        q(p.is_simple)
+        used.sip(lambda: iter(p.children()))
+
+
 def _UP(seq=()):
     """Perm constructor of the heavy lines: one object per construction site of the line (used.obj), the first
     one fully used, the others generically"""
     seq = tuple(seq)
     first = used.T.i == 0
-    return used.obj(("P", seq), lambda: Perm(seq), _warm_first if first else used.warm_perm)
+    salt = used.T.i
+    # an object with a past: fresh / used / derived from a used object through another API route (past.mkperm_u)
+    return used.obj(("P", seq), lambda: past.mkperm_u(seq, salt, _c10_use) if len(seq) <= 120 and used.is_perm(seq) else Perm(seq),
+                    _warm_first if first else (used.warm_perm if len(seq) <= 120 else (lambda p: used.warm_perm(p, 0))))
+
+
+def _fin(r, fmt):
+    """format a container the library returned; on heavy lines (which are evaluated twice on the same objects) the
+    container is destroyed afterwards: the second evaluation must not notice"""
+    out = fmt(r)
+    if _HEAVY[0]:
+        used.scrub(r)
+    return out
 
 
 def impl(op, a):
     # every line with a long argument (the random stream) and a deterministic fortieth of the short exhaustive
     # lines are evaluated on used objects and then once more on the same objects; the others as before
-    _HEAVY[0] = len(a[0]) >= 15 or used.sel(op, a, 40) if a else False
+    # (of the `large` stream's lines - more than about 20 entries - a deterministic third: the warm-up is quadratic)
+    _HEAVY[0] = (15 <= len(a[0]) < 60 or used.sel(op, a, 3 if len(a[0]) >= 60 else 40)) if a else False
     if not _HEAVY[0]:
         return _impl(op, a, Perm)
     used.begin()
@@ -136,7 +174,13 @@ def _impl(op, a, P):
     if op == "compose":
         return guarded(lambda: fseq(P(pseq(a[0])).compose(*[P(q) for q in pseqs(a[1])])))
     if op == "apply":
-        return guarded(lambda: fseq(P(pseq(a[0])).apply(pseq(a[1]))))
+        def appl():
+            arg = list(pseq(a[1])) if _HEAVY[0] else pseq(a[1])
+            out = fseq(P(pseq(a[0])).apply(arg))
+            if _HEAVY[0]:
+                arg.clear()
+            return out
+        return guarded(appl)
     if op == "call":
         return guarded(lambda: str(P(pseq(a[0]))(int(a[1]))))
     if op == "insert":
@@ -146,8 +190,15 @@ def _impl(op, a, P):
     if op == "remel":
         return guarded(lambda: fseq(P(pseq(a[0])).remove_element(popt(a[1]))))
     if op == "inflate":
-        return guarded(lambda: fseq(P(pseq(a[0])).inflate(
-            iter([None if c is None else P(c) for c in pcomps(a[1])]))))
+        def infl():
+            comps = [None if c is None else P(c) for c in pcomps(a[1])]
+            if not _HEAVY[0]:
+                return fseq(P(pseq(a[0])).inflate(iter(comps)))
+            out = fseq(P(pseq(a[0])).inflate(comps))      # the list itself is passed and changed afterwards
+            comps.reverse()
+            comps.append(None)
+            return out
+        return guarded(infl)
     if op in ("shr", "shl", "shu", "shd"):
         name = {"shr": "shift_right", "shl": "shift_left", "shu": "shift_up", "shd": "shift_down"}[op]
         return guarded(lambda: fseq(getattr(P(pseq(a[0])), name)(int(a[1]))))
@@ -156,15 +207,15 @@ def _impl(op, a, P):
     if op == "isskew":
         return guarded(lambda: fbool(P(pseq(a[0])).is_skew_decomposable()))
     if op == "sumdec":
-        return guarded(lambda: fseqs(P(pseq(a[0])).sum_decomposition()))
+        return guarded(lambda: _fin(P(pseq(a[0])).sum_decomposition(), fseqs))
     if op == "skewdec":
-        return guarded(lambda: fseqs(P(pseq(a[0])).skew_decomposition()))
+        return guarded(lambda: _fin(P(pseq(a[0])).skew_decomposition(), fseqs))
     if op == "blocks":
-        return guarded(lambda: fseqs(P(pseq(a[0])).block_decomposition()))
+        return guarded(lambda: _fin(P(pseq(a[0])).block_decomposition(), fseqs))
     if op == "blockpats":
-        return guarded(lambda: fset(P(pseq(a[0])).block_decomposition_as_pattern()))
+        return guarded(lambda: _fin(P(pseq(a[0])).block_decomposition_as_pattern(), fset))
     if op == "mono":
-        return guarded(lambda: fpairs(getattr(P(pseq(a[1])), _KIND[a[0]])(a[2] == "T")))
+        return guarded(lambda: _fin(getattr(P(pseq(a[1])), _KIND[a[0]])(a[2] == "T"), lambda r: fpairs(list(r))))
     if op == "contract":
         return guarded(lambda: fseq(getattr(P(pseq(a[1])), _CONTRACT[a[0]])()))
     if op == "mquot":
@@ -176,9 +227,9 @@ def _impl(op, a, P):
     if op == "ssimple":
         return guarded(lambda: fbool(P(pseq(a[0])).is_strongly_simple()))
     if op == "children":
-        return guarded(lambda: fset(P(pseq(a[0])).children()))
+        return guarded(lambda: _fin(P(pseq(a[0])).children(), fset))
     if op == "coveredby":
-        return guarded(lambda: fset(P(pseq(a[0])).coveredby()))
+        return guarded(lambda: _fin(P(pseq(a[0])).coveredby(), fset))
     # ---- composite operations: laws evaluated with the implementation on its own outputs
     if op == "rt_insrem":
         return guarded(lambda: fseq(P(pseq(a[0])).insert(popt(a[1]), popt(a[2])).remove(popt(a[1]))))
@@ -776,6 +827,55 @@ def run(ctx):
             cs = [rng.choice([None, (), (0,), structured(rng, rng.randrange(0, 5))]) for _ in range(m)]
             lines.append("inflate %s %s" % (fseq(base), fcomps(cs)))
     ctx.compare("random-structured", lines)
+    # ---------------- sizes the other streams never reach (they stop at 12): 21-40, 64-70 and a handful of lines
+    # around 200, 401 and 1000.  Left out where a side needs more than ~0.2 s a line (measured): coveredby from 64 on
+    # (model 2 s at 70), the interval scans blocks / blockpats / maxblock / simple / ssimple from 200 on (model > 1 s),
+    # children and the decomposition predicates (issum, isskew, law_dec: model 1.4-3.3 s) at 1000.
+    lines = []
+    for lo, hi, cnt in ((21, 40, 9), (64, 70, 4), (199, 202, 2), (400, 403, 1), (1000, 1000, 1)):
+        for _ in range(cnt if quick else cnt * 6):
+            n = rng.randrange(lo, hi + 1)
+            p = structured(rng, n)
+            fp = fseq(p)
+            drop = set()
+            if n > 40:
+                drop |= {"coveredby"}
+            if n > 150:
+                drop |= {"blocks", "blockpats", "maxblock", "simple", "ssimple"}
+            if n > 600:
+                drop |= {"children", "issum", "isskew", "law_dec"}
+            lines.extend(l for l in unary_lines(p) if l.split(" ")[0] not in drop)
+            for i, v in ((0, 0), (n, n), (n + 1, 0), (n - 1, "N"), ("N", n - 1), (n // 2, n // 3), (n + 2, 0), (0, n + 1),
+                         (-1, 0)):
+                lines.append("insert %s %s %s" % (fp, i, v))
+                lines.append("rt_insrem %s %s %s" % (fp, i, v))
+            for j in (0, n - 1, -1, -n, n, -n - 1, n // 2):
+                lines.append("remove %s %d" % (fp, j))
+                lines.append("rt_remins %s %d" % (fp, j))
+                lines.append("remel %s %d" % (fp, j))
+                lines.append("call %s %d" % (fp, j))
+            for t in (1, -1, n - 1, n, n + 1, -2 * n - 1, 10 ** 12 + 7):
+                lines.append("%s %s %d" % (rng.choice(["shr", "shl", "shu", "shd"]), fp, t))
+                lines.append("law_shift %s %d %d" % (fp, t, rng.choice([0, 1, -n, 7])))
+            q, u = structured(rng, n), rand_perm(rng, n)
+            short = structured(rng, rng.randrange(0, 6))
+            lines.append("law_comp %s %s %s" % (fp, fseq(q), fseq(u)))
+            lines.append("compose %s %s" % (fp, fseqs([q, u])))
+            lines.append("compose %s %s" % (fp, fseqs([q, short])))
+            lines.append("mul %s %s" % (fp, fseq(u)))
+            lines.append("law_sum %s %s %s" % (fp, fseq(short), fseq(q)))
+            lines.append("dsum %s %s" % (fp, fseqs([short, (), q])))
+            lines.append("ssum %s %s" % (fp, fseqs([u, short])))
+            lines.append("add %s %s" % (fseq(short), fp))
+            lines.append("sub %s %s" % (fp, fseq(short)))
+            lines.append("apply %s %s" % (fp, fseq([3 * x + 1 for x in u])))
+            lines.append("apply %s %s" % (fp, fseq(range(n - 1))))
+            # inflations: a long permutation with short components, a short one with long components
+            lines.append("inflate %s %s" % (fp, fcomps(rng.choice([None, (), (0,), (1, 0), (0, 2, 1)]) for _ in range(n))))
+            base = structured(rng, rng.randrange(2, 6))
+            lines.append("inflate %s %s" % (fseq(base), fcomps(structured(rng, max(1, n // len(base))) for _ in base)))
+            lines.append("inflate %s %s" % (fp, fcomps([None] * (n - 1))))
+    ctx.compare("large", lines)
     # ---------------- malformed / glue
     lines = []
     for p in [(), (0,), (1, 0, 2)]:
